@@ -352,7 +352,8 @@ def _check_float(cfg, env, pick=None, jac_scale=1.0):
 def replay(data):
     last = (False, "")
     for env in (c02.salted("r1"), c02.salted("r2"), c02.DefaultEnv(dict(data["env"]))):
-        for pick, jsc in ((None, 1.0), (0, 1.0), (None, 1e3), (0, 1e-2)):  # last / an earlier point returned; Jacobian magnitudes
+        # last / an earlier point returned; Jacobian magnitudes; a numerically rank deficient Jacobian (singular value between eps and sqrt(eps))
+        for pick, jsc in ((None, 1.0), (0, 1.0), (None, 1e3), (0, 1e-2), (None, "near-singular")):
             v, d = _check_float(data["cfg"], env, pick=pick, jac_scale=jsc)
             if v:
                 return v, d
